@@ -277,7 +277,7 @@ def opt_case(spec, pid):
                     hit("corpus_both_within_expectation")
                     v = "ok"
             if v != "ok":
-                culprit = optcommon.attribute(m, o, lambda x: optcommon.equivalent(m, x, feeds_list, base_main)[0] == "ok", fired, known)
+                culprit = optcommon.attribute(m, o, lambda x: _okish(optcommon.equivalent(m, x, feeds_list, base_main)[0]), fired, known)
                 res["c03"].append({"key": _key(culprit, v), "what": f"{o['api']}({_optstr(o)}) changes the result [{v}]: {d}",
                                    "detail": {"opts": o, "case": label, "fired": list(dict.fromkeys(fired))[:20], "kind": v}})
                 hit("mismatch")
@@ -286,13 +286,17 @@ def opt_case(spec, pid):
             v2, d2 = optcommon.equivalent(m, m2, over, base_over)
             hit("override_runs")
             if v2 not in ("ok",) and not v2.startswith("inconclusive") and v == "ok":
-                culprit = optcommon.attribute(m, o, lambda x: optcommon.equivalent(m, x, over, base_over)[0] == "ok", fired, known)
+                culprit = optcommon.attribute(m, o, lambda x: _okish(optcommon.equivalent(m, x, over, base_over)[0]), fired, known)
                 res["c04"].append({"key": f"mech={culprit or '?'};kind=override", "what": f"{o['api']}: result differs when an initializer-input is overridden: {d2}",
                                    "detail": {"opts": o, "case": label, "fired": list(dict.fromkeys(fired))[:20]}})
     res["fired"] = sorted(all_fired)
     res["nontrivial"] = bool(all_fired)
     res["sig"] = "|".join(sorted(all_fired))
     return res
+
+
+def _okish(v):
+    return v == "ok" or v.startswith("inconclusive")
 
 
 def _key(culprit, kind):
